@@ -5,6 +5,7 @@ contains the two constant classifiers, and the generated metrics are affine in t
 -/
 import FairModel.Lemmas.Prelude
 import FairModel.Model.Threshold
+import FairModel.Lemmas.ThresholdSrc
 
 namespace Threshold
 open ThresholdGen
@@ -71,12 +72,14 @@ theorem insertDesc_sorted (r : Row) (l : List Row) (h : DescSorted l) : DescSort
     have hy := List.pairwise_cons.mp h
     split
     · next hlt =>
+      have hlt := (src_scoreBefore _ _).mp hlt
       refine List.pairwise_cons.mpr ⟨?_, h⟩
       intro z hz
       rcases List.mem_cons.mp hz with rfl | hz
       · exact le_of_lt hlt
       · exact le_trans (hy.1 z hz) (le_of_lt hlt)
     · next hlt =>
+      have hlt := fun h => hlt ((src_scoreBefore _ _).mpr h)
       refine List.pairwise_cons.mpr ⟨?_, ih hy.2⟩
       intro z hz
       rcases List.mem_cons.mp ((insertDesc_perm r ys).mem_iff.mp hz) with hz | hz
@@ -126,14 +129,14 @@ theorem sweepAux_sound (suf : List Row) : ∀ (pre : List Row) (c0 c1 : Nat),
     unfold sweepAux at hs
     cases rest with
     | nil =>
-      simp only [List.mem_singleton] at hs
+      simp only [List.mem_singleton, src_thrSentinel] at hs
       subst hs
       refine ⟨?_, ?_, ?_⟩
-      · simp only [Thr.below, Bool.and_true]; exact hc0
-      · simp only [Thr.below, Bool.and_true]; exact hc1
+      · simp only [Thr.below, src_opGt_eq, Bool.and_true]; exact hc0
+      · simp only [Thr.below, src_opGt_eq, Bool.and_true]; exact hc1
       · intro x _; rfl
     | cons r' rest' =>
-      simp only at hs
+      simp only [src_midThreshold] at hs
       have hrec : ∀ s ∈ sweepAux (r' :: rest') (if r.label then c0 else c0 + 1) (if r.label then c1 + 1 else c1),
           StepSound (pre ++ r :: r' :: rest') s := by
         intro s hs
@@ -160,19 +163,19 @@ theorem sweepAux_sound (suf : List Row) : ∀ (pre : List Row) (c0 c1 : Nat),
           have hb1 : ∀ x ∈ pre ++ [r], (Thr.fin ((r.score + r'.score) / 2)).below x.score = true := by
             intro x hx
             have := hpre x hx
-            simp only [Thr.below, decide_eq_true_eq]; linarith
+            simp only [Thr.below, src_opGt_eq, decide_eq_true_eq]; linarith
           have hb2 : ∀ x ∈ r' :: rest', (Thr.fin ((r.score + r'.score) / 2)).below x.score = false := by
             intro x hx
             have := hsuf x hx
-            simp only [Thr.below, decide_eq_false_iff_not, not_lt]; linarith
+            simp only [Thr.below, src_opGt_eq, decide_eq_false_iff_not, not_lt]; linarith
           have ha1 : ∀ x ∈ pre ++ [r], (Thr.fin ((r.score + r'.score) / 2)).above x.score = false := by
             intro x hx
             have := hpre x hx
-            simp only [Thr.above, decide_eq_false_iff_not, not_lt]; linarith
+            simp only [Thr.above, src_opLt_eq, decide_eq_false_iff_not, not_lt]; linarith
           have ha2 : ∀ x ∈ r' :: rest', (Thr.fin ((r.score + r'.score) / 2)).above x.score = true := by
             intro x hx
             have := hsuf x hx
-            simp only [Thr.above, decide_eq_true_eq]; linarith
+            simp only [Thr.above, src_opLt_eq, decide_eq_true_eq]; linarith
           rw [happ]
           refine ⟨?_, ?_, ?_⟩
           · simp only
@@ -197,10 +200,12 @@ theorem StepSound.of_perm {L L' : List Row} (h : L.Perm L') {s : Thr × Nat × N
 /-- every sweep step counts exactly the rows above its threshold, and no score equals a threshold -/
 theorem sweepSteps_sound (rows : List Row) : ∀ s ∈ sweepSteps rows, StepSound rows s := by
   intro s hs
+  unfold sweepSteps at hs
+  rw [src_thrInitial] at hs
   rcases List.mem_cons.mp hs with rfl | hs
   · refine ⟨?_, ?_, ?_⟩
-    · simp [Thr.below]
-    · simp [Thr.below]
+    · simp [Thr.below, src_opGt_eq]
+    · simp [Thr.below, src_opGt_eq]
     · intro r _; rfl
   · have := sweepAux_sound (sortDesc rows) [] 0 0 (by simpa using sortDesc_sorted rows) rfl rfl s hs
     exact StepSound.of_perm (by simpa using sortDesc_perm rows) this
@@ -212,7 +217,7 @@ theorem sweepAux_has_ninf (l : List Row) (hne : l ≠ []) : ∀ c0 c1, ∃ a b, 
     intro c0 c1
     unfold sweepAux
     cases rest with
-    | nil => exact ⟨_, _, List.mem_singleton.mpr rfl⟩
+    | nil => exact ⟨_, _, List.mem_singleton.mpr (by rw [src_thrSentinel])⟩
     | cons r' rest' =>
       simp only
       obtain ⟨a, b, hab⟩ := ih (by simp) (if r.label then c0 else c0 + 1) (if r.label then c1 + 1 else c1)
@@ -233,14 +238,14 @@ theorem sweepSteps_has_ninf (rows : List Row) (hne : rows ≠ []) :
   have hs := sweepSteps_sound rows _ hmem
   have ha : a = nNeg rows := by
     have := hs.1; simp only at this
-    rw [this]; unfold nNeg; exact countP_eq_of_forall (fun r _ => by simp [Thr.below])
+    rw [this]; unfold nNeg; exact countP_eq_of_forall (fun r _ => by simp [Thr.below, src_opGt_eq])
   have hb : b = nPos rows := by
     have := hs.2.1; simp only at this
-    rw [this]; unfold nPos; exact countP_eq_of_forall (fun r _ => by simp [Thr.below])
+    rw [this]; unfold nPos; exact countP_eq_of_forall (fun r _ => by simp [Thr.below, src_opGt_eq])
   rw [← ha, ← hb]; exact hmem
 
 theorem sweepSteps_has_pinf (rows : List Row) : (Thr.pinf, 0, 0) ∈ sweepSteps rows := by
-  simp [sweepSteps]
+  simp [sweepSteps, src_thrInitial]
 
 /-! ### confusion counts of a threshold operation -/
 
